@@ -476,7 +476,7 @@ def _check_run(ctx, mod, cls, Elem):
     for n_ in vnotes:
         ctx.note("runUntilCurrent: " + n_)
     q = R + ".runUntilCurrent"
-    g = ctx.cfg(f, swallowing=swallowing_predicate(mod, f))
+    g = ctx.cfg(f, swallowing=swallowing_predicate(mod, f, cls))
     al = _heap_aliases(f)
     _alias_guard(g, al)
     pops = g.find(lambda x: _is_call(x, "heappop") and x.args and _is_heap(x.args[0], al))
@@ -1176,4 +1176,17 @@ MUTANTS += [
            more=[(BASE, _CANCEL_DEF, _PHASE.replace("[0].time <= now", "[0].time < now") + _CANCEL_DEF)]),
     Mutant("phase-method-marks-after-calling", BASE, _RUN_BODY, "        self._runDue()\n        if False:\n", expect_rule="run/called-before-call",
            more=[(BASE, _CANCEL_DEF, _PHASE.replace("            call.called = 1\n            call.func(*call.args, **call.kw)\n", "            call.func(*call.args, **call.kw)\n            call.called = 1\n") + _CANCEL_DEF)]),
+]
+
+SILENT += [
+    # the log-and-continue manager picked by a private static method with a guard-clause return
+    Silent("log-handler-from-static-method", BASE, "            with logHandler:\n", "            with self._failureLogger(call):\n",
+           more=[(BASE, _CANCEL_DEF, "    @staticmethod\n    def _failureLogger(call):\n        if not call.creator:\n            return _DEFAULT_DELAYED_CALL_LOGGING_HANDLER\n"
+                  "        return _log.failuresHandled(\"while handling timed call\")\n\n" + _CANCEL_DEF)]),
+]
+MUTANTS += [
+    # ... and one arm of that method handing out a manager that does not swallow is still seen
+    Mutant("static-handler-method-not-swallowing", BASE, "            with logHandler:\n", "            with self._failureLogger(call):\n", expect_rule="run/isolated",
+           more=[(BASE, _CANCEL_DEF, "    @staticmethod\n    def _failureLogger(call):\n        if not call.creator:\n            return contextlib.nullcontext()\n"
+                  "        return _log.failuresHandled(\"while handling timed call\")\n\n" + _CANCEL_DEF)]),
 ]
